@@ -1,3 +1,4 @@
+-- properties: C04 C11
 /-
   C04 / C11 — the Akai MPC 2000 container (stand-alone L1 model SfModel/Mpc2k.lean; helpers SfProofs/Mpc2kImage.lean,
   SfProofs/Small2Session.lean).  Property theorems only.
